@@ -1,8 +1,13 @@
 """C20 OT-based multiplication gadgets return shares of the product."""
 import hashlib
+import os
 import re
+import sys
 
 import vlib
+
+sys.path.insert(0, os.path.dirname(os.path.abspath(__file__)))
+from t1 import run_t1  # noqa: E402  (T1 leaf translator tie, checks/t1.py)
 
 LEVEL = "proof"
 
@@ -18,6 +23,12 @@ THEOREMS = [
     "Mpc.C20_vole_session",
     "Mpc.C20_vole_session_every_call",
     "Mpc.C20_vole_session_messages",
+    "Mpc.C20_wire_frame",
+    "Mpc.C20_wire_buffer_independent",
+    "Mpc.C20_vole_step_wire",
+    "Mpc.C20_vole_session_wire",
+    "Mpc.C20_vole_beyond_blocks",
+    "Mpc.C20_vole_beyond_64k",
     "Mpc.C20_fx_session",
     "Mpc.C20_toOT_fromOT",
     "Mpc.C20_fx_shares",
@@ -37,6 +48,7 @@ def calls(body, pat):
 
 def run(ctx):
     ctx.prove("MpcVerif.Props.C20", THEOREMS)
+    run_t1(ctx, ["C20"])          # vole.bytes32 = Vole.bytes32
     if ctx.tier == "thorough":
         ctx.leanchecker("MpcVerif.Props.C20")
     ctx.build_drv()
@@ -59,15 +71,22 @@ def run(ctx):
     quick = ctx.tier == "quick"
     if ctx.build_hx():
         # vole: every case is a HISTORY of 1..6 Mul calls on one Sender/Receiver pair; the first call of the first 45
-        # cases is the grid of lengths {1,2,511..513,1023..1025,2000} x the five fixed moduli
-        vole_plan = [(ctx.seed, 160)] if quick else [(ctx.seed, 400), (ctx.seed + 1000, 400), (ctx.seed + 2000, 400)]
+        # cases is the grid of lengths {1,2,511..513,1023..1025,2000} x the five fixed moduli; then the long-vector
+        # plan (harness/cmd/c20/transport.go): lengths around the multiples of the MEASURED p2p.Conn write buffer
+        # (2046..2050, 4094..4098, ...), around the read buffer (32766..32770) and IKNP chunk multiples, each in a
+        # history (long after short, short after long, long after long), small and large moduli
+        vole_plan = [(ctx.seed, 170)] if quick else [(ctx.seed, 400), (ctx.seed + 1000, 400), (ctx.seed + 2000, 400)]
         fx_plan = [(ctx.seed, 4000)] if quick else [(ctx.seed, 20000), (ctx.seed + 1000, 20000)]
         fxs_plan = [(ctx.seed, 1500)] if quick else [(ctx.seed, 8000), (ctx.seed + 1000, 8000)]
         for s, n in vole_plan:
             ops, out, meta = ctx.run_hx("vole", n, seed=s, timeout=1500)
             ctx.absorb_meta(meta)
-            ctx.correspond("vole histories of Mul calls on one pair: per call r, u, y-message, u-message byte-exact, "
-                           "row-stream position (seed %d)" % s, ops, out)
+            ctx.correspond("vole histories of Mul calls on one pair: per call r, u, framed y-message and u-message as on the "
+                           "wire (model: block-wise writer with the measured buffer size) byte-exact, row-stream position "
+                           "(seed %d)" % s, ops, out)
+            for k in ("write_buffer_bytes", "read_buffer_bytes", "long_plan_cases"):
+                if k in meta:
+                    ctx.coverage["vole_" + k] = meta[k]
             for line in open(ops, errors="replace"):
                 ctx.distinct.add(hashlib.sha1(line.encode()).digest())
         for s, n in fx_plan:
@@ -110,6 +129,18 @@ def run(ctx):
         ctx.oblige("gadget histories: Fx and Fxk calls on an OT instance that already carried earlier calls, ideal OT and CO",
                    all(c.get(k, 0) > 0 for k in ("fxs_calls_on_used_ot", "fxs_fx_calls", "fxs_fxk_calls",
                                                  "fxs_base_ideal", "fxs_base_co")), str(c))
+        # the transport boundaries of the length quantifier
+        tb = {k: c.get(k, 0) for k in (
+            "vole_len_last_of_1_write_blocks", "vole_len_first_of_2_write_blocks",
+            "vole_len_beyond_one_write_block_small_modulus", "vole_len_beyond_one_write_block_large_modulus",
+            "vole_len_beyond_one_write_block_after_one_block_call", "vole_len_beyond_one_write_block_before_one_block_call",
+            "vole_len_beyond_two_write_blocks", "vole_len_beyond_one_read_buffer", "vole_next_long-after-long",
+            "vole_len_iknp_chunk_edge")}
+        ctx.coverage["vole_transport_boundaries"] = tb
+        ctx.oblige("vole ran at the transport boundaries of the vector length: last length of one write-buffer block and "
+                   "first of two, beyond one block with a small and with a large modulus, after and before a one-block "
+                   "call on the same pair, beyond two blocks, beyond the read buffer, IKNP chunk edges",
+                   all(v > 0 for v in tb.values()), str(tb))
         grid = [k for k in c if k.startswith("vole_grid_")]
         ctx.coverage["vole_grid_points"] = len(grid)
         ctx.oblige("vole ran on the 9 x 5 grid of boundary lengths x fixed moduli", len(grid) == 45,
@@ -119,7 +150,13 @@ def run(ctx):
         "cases); follow-up calls: same length / 1 / 1..longest-so-far / tiny / longer / EMPTY / random short, modulus same / "
         "small {2,3,251,65537,2^61-1} (half of the follow-ups) / fixed / random, elements from {0,1,p-1,1..4-byte} on half of "
         "the follow-ups (fewer significant bytes than what an earlier call packed in the same slot), relation checked after "
-        "every call. First calls: grid of lengths {1,2,511,512,513,1023,1024,1025,2000} x moduli {P-256 prime, 3, 65537, 2^255-19, 2^256-189}, "
+        "every call. LONG-VECTOR PLAN after the grid: the sizes of the p2p.Conn write and read buffer are measured on the tree "
+        "under test; lengths fit-1..fit+3 around the last length that fits k write buffers (k = 1..4: 2046..2050, 4094..4098, "
+        "...), around the read buffer (32766..32770) and 512k+-1 (k = 3, 5); quick tier: all five lengths around one block, "
+        "two around two blocks, one of every other class (the read-buffer one with a small modulus), thorough: every length "
+        "of every class with a small and a large modulus (read-buffer class: alternating); history shapes alone / "
+        "short-then-long / long-then-short / long-then-neighbour / long-short-long rotate with the seed; field corners at the "
+        "end of the vector and at the first index of every later block. First calls: grid of lengths {1,2,511,512,513,1023,1024,1025,2000} x moduli {P-256 prime, 3, 65537, 2^255-19, 2^256-189}, "
         "then random lengths (biased to 1..90 in the quick tier, to multiples of 8/64/512 +-1 and 1..2000 otherwise) x "
         "fixed or random moduli (2, 2^k, 2^k-1, 2^256-1, random of 2..256 bits); per element a draw from {0, 1, p-1, p, "
         "2^256-1, random 256-bit, short byte strings, random below p}; ideal base OT on 3 of 4 cases, CO on the fourth; "
@@ -138,6 +175,9 @@ def run(ctx):
         "C20_bytes32_panics_beyond); a negative y would be sent as |y| (outside the property's domain of field elements)",
         "AES-CTR (prgExpandLabel) is an arbitrary function in the theorems; its Lean re-implementation only matters for "
         "the byte-exact comparison",
+        "transport: the write buffer size is a parameter of the wire model (every cap >= 4); the reading side (Fill / "
+        "ReceiveData reassembly across the read buffer) is property C11 and enters here only through the tie: sessions with "
+        "messages longer than the read buffer are run on the real code under seeded read fragmentation",
         "the sender's IKNP labels are recovered by a second ot.IKNPSender (same code) fed with the recorded base-OT "
         "output, delta and column stream",
         "bmr.NewLabel's randomness is supplied by replacing crypto/rand.Reader in the harness process",
@@ -145,7 +185,12 @@ def run(ctx):
     return ctx.finish(
         "Theorems (Props/C20.lean): HISTORIES - for every PRG, row stream, start position and list of admissible Mul calls on one "
         "pair no call errs, every call satisfies the share relation and its messages are pack32 of its own vectors, the state "
-        "between calls is the stream position only (C20_vole_session*); every history of in-domain Fx/Fxk calls over one OT "
+        "between calls is the stream position only (C20_vole_session*); TRANSPORT - for every write-buffer size cap >= 4, every "
+        "connection state and every message SendData;Flush puts pending ++ be32(len) ++ message on the wire in blocks of at most "
+        "cap bytes (C20_wire_frame), the same bytes for every cap (C20_wire_buffer_independent); every call of every history has "
+        "the share relation at every index and the framed packed vectors on the wire (C20_vole_session_wire), also when the "
+        "vector takes more than k blocks (C20_vole_beyond_blocks; C20_vole_beyond_64k: m >= 2048 with the 64 KiB buffer, "
+        "indices i >= 2047 explicitly); every history of in-domain Fx/Fxk calls over one OT "
         "returns shares of each call's product (C20_fx_session). Single call: for every PRG, label list, m >= 1, 0 < p <= 2^256, x, y < 2^256 a vole session takes no "
         "error branch, lengths are preserved, r_i, u_i < p and u_i - r_i = x_i*y_i (mod p); bytes32 / packed-vector round "
         "trips and the exact panic condition; Fx shares XOR to a*b for bits (and to (a mod 2)*[b=1] for any uint), Fxk shares "
